@@ -261,6 +261,8 @@ def spec(self, name, dom, cod, **params):
     self._dom = dom
     self._cod = cod
     self._boxes = [self]
+    self._dagger = params.get("_dagger", False)
+    self._data = params.get("data", None)
     self._offsets = [0]
     self._layers = RawArrow(dom, cod, [RawLayer(dom[0:0], self, dom[0:0])])
 '''
@@ -507,6 +509,8 @@ def _make_cupcap(kind):
         ex.assume(T.bkind(b) == T.KINDS[kind])
         ex.assume(T.bdom(b) == (both if kind == 'Cup' else T.EMPTY))
         ex.assume(T.bcod(b) == (T.EMPTY if kind == 'Cup' else both))
+        ex.assume(T.bleft(b) == left.t)
+        ex.assume(T.bright(b) == right.t)
         return VBox(b, extra={'dom': VTy(both if kind == 'Cup' else T.EMPTY),
                               'cod': VTy(T.EMPTY if kind == 'Cup' else both)})
     return make
@@ -526,6 +530,9 @@ def _cupcap_init(kind):
         ex.prove('C01:%s accepts only adjoint pairs' % kind, _adjoint_pair(interp, left, right))
         ex.prove('C01:%s.dom' % kind, T.ty_eq(obj.attrs['_dom'].t, both if kind == 'Cup' else T.EMPTY))
         ex.prove('C01:%s.cod' % kind, T.ty_eq(obj.attrs['_cod'].t, T.EMPTY if kind == 'Cup' else both))
+        ex.prove('C01:%s.left / .right are the two types given' % kind,
+                 z3.And(T.ty_eq(obj.attrs['left'].t, left.t), T.ty_eq(obj.attrs['right'].t, right.t))
+                 if 'left' in obj.attrs and 'right' in obj.attrs else z3.BoolVal(False))
 
         def side():
             # the call-site form of this constructor promises the same dom / cod (and accepts the same arguments)
@@ -689,3 +696,25 @@ CONTRACTS['rigid.caps'].abstract = _prev_caps
 
 for _q in ('rigid.cups', 'rigid.caps'):
     _consistency(_q)
+
+
+# ---------------------------------------------------------------- transposes (C01 producer; used by snake removal's inputs)
+def _p_transpose(ex):
+    d = ex.sym_diagram('self', wf=True)
+    d.dom.cls = d.cod.cls = 'rigid'
+    left = VBool(z3.BoolVal(ex.fork(2) == 1))
+    ex._tr = (d, left)
+    return [d], {'left': left}
+
+
+def _e_transpose(interp, args, kwargs, result):
+    ex, w = interp.ex, interp.world
+    d, left = ex._tr
+    side = 'l' if z3.is_true(left.t) else 'r'
+    result = w.as_diagram(result)
+    ex.prove('C01:transpose.dom is the adjoint of cod', T.ty_eq(result.dom.t, w.ty_adjoint(interp, d.cod.t, side)))
+    ex.prove('C01:transpose.cod is the adjoint of dom', T.ty_eq(result.cod.t, w.ty_adjoint(interp, d.dom.t, side)))
+    prove_wf(ex, 'C01:transpose', result)
+
+
+contract('rigid.Diagram.transpose', params=_p_transpose, ensures=_e_transpose, property_ids=('C01', 'C07'))
